@@ -96,4 +96,10 @@ def gen(tier, rng, boost=1):
     for s in (0, 1, -1, U(34)):
         for ns in (-1, -5, -999999999, 1000000000, U(30), U(31) - 1, -U(31)):
             ops.append(f"mp.write ts {s} {ns}")
+    # classes with conditional fields (one in a base class): map header = number of entries written, object after object
+    for _ in range((150 if tier == "quick" else 3000) * boost):
+        masks = [rng.randrange(64) for _ in range(rng.choice([1, 2, 3, 6]))]
+        ops.append(f"mp.obj {rng.choice(['mem', 'stream'])} {';'.join(map(str, masks))}")
+    ops.append("mp.obj mem " + ";".join(str(m) for m in range(64)))
+    ops.append("mp.obj stream " + ";".join(str(m) for m in reversed(range(64))))
     return ops
